@@ -1002,7 +1002,7 @@ def stepRet (w : World τ) (a : ActId) (f : Frame τ) (fs : List (Frame τ)) (v 
   | .gotValue => (w.emit a "got" [valInt v]).retTo a fs .unit
   | .qIterNext q rem body =>
     if rem == 0 then w.retTo a fs .unit
-    else w.acquireLock a (.qIterGot q rem body :: fs) (w.queues.getD q default).mutex (.queueGet q)
+    else (w.emit a "getreq" [q]).acquireLock a (.qIterGot q rem body :: fs) (w.queues.getD q default).mutex (.queueGet q)
   | .qIterGot q rem body =>
     (w.emit a "got" [valInt v]).retTo a (.seq body :: .qIterNext q (rem - 1) body :: fs) .unit
   | .cGetWait c key =>                                                 -- streams.py Channel.__await__
